@@ -293,6 +293,11 @@ impl SimFs {
         now: u64,
     ) -> io::Result<(Ino, bool)> {
         let r = self.resolve(cwd, path, true)?;
+        // Linux: O_CREAT with a trailing slash is EISDIR whatever the path names
+        // (calibrated against the real kernel)
+        if r.trailing_slash && (fl.create || fl.create_new) {
+            return Err(err(EISDIR));
+        }
         match r.ino {
             Some(ino) => {
                 if fl.create_new {
@@ -476,12 +481,14 @@ impl SimFs {
         to: &str,
         now: u64,
     ) -> io::Result<(Ino, Option<Ino>)> {
+        // Linux resolves both parent paths before it looks up the source's last component
+        // (calibrated: a missing source with ENOTDIR in the target path is ENOTDIR)
         let rf = self.resolve(cwd, from, false)?;
+        let rt = self.resolve(cwd, to, false)?;
         let src = rf.ino.ok_or_else(|| err(ENOENT))?;
         if rf.name.is_empty() {
             return Err(err(EINVAL));
         }
-        let rt = self.resolve(cwd, to, false)?;
         if rt.name.is_empty() {
             return Err(err(EINVAL));
         }
@@ -493,6 +500,19 @@ impl SimFs {
         if let Some(dst) = rt.ino {
             if dst == src {
                 return Ok((src, None));
+            }
+            // the target is an ancestor directory of the source: ENOTEMPTY on Linux
+            if self.kind_of(dst) == Kind::Dir {
+                let mut p = rf.parent;
+                loop {
+                    if p == dst {
+                        return Err(err(ENOTEMPTY));
+                    }
+                    if p == self.root {
+                        break;
+                    }
+                    p = self.inodes[&p].parent;
+                }
             }
             match (src_kind.clone(), self.kind_of(dst)) {
                 (Kind::Dir, Kind::Dir) => {
